@@ -118,7 +118,9 @@ BeamVanishes == (model \in {"bcx", "bes"} /\ nb = 0) => BeamTotal[1] = 0
 \* the totals are functions of the current binding only: nothing in the rules refers to what the model saw before
 \* (Total, BeamTotal and Raises do not mention prior; the harness evaluates the model under the prior binding first)
 
-EmitCase == PrintT(ToJson([model |-> model, prior |-> prior, flow |-> flow, vel |-> [s \in Names |-> IF flow THEN Vel(s) ELSE <<0, 0, 0>>], efac |-> [s \in Names |-> EFac(s)], dens |-> dens, temp |-> temp, ne |-> ne, te |-> te, nb |-> nb, raises |-> Raises,
+\* Vel is given in the beam frame; when the species flow the beam frame is rotated against the plasma frame (the
+\* interaction energy is frame independent, so EFac is what every coefficient must be evaluated at either way)
+EmitCase == PrintT(ToJson([model |-> model, prior |-> prior, flow |-> flow, frame |-> IF flow THEN "rotated" ELSE "aligned", vel |-> [s \in Names |-> IF flow THEN Vel(s) ELSE <<0, 0, 0>>], efac |-> [s \in Names |-> EFac(s)], dens |-> dens, temp |-> temp, ne |-> ne, te |-> te, nb |-> nb, raises |-> Raises,
                            total |-> Total, unspecified |-> Unspecified, beam_total |-> BeamTotal,
                            needs |-> Needs, donors |-> Donors, hyd |-> Hyd,
                            species |-> Sp, zeff |-> <<SumZ2N, SumZN>>, nion |-> SumN]))
